@@ -242,4 +242,143 @@ theorem specL_eq_refL (ts : List Tree) (amb : List (String × IdVal)) (hc : Clea
     simp only [specL, refL, spec_eq_ref x amb hc.1, specL_eq_refL xs amb hc.2]
 end
 
+/-! ### The link to C03: `runT`'s effects on the machine are a well-nested, balanced block of C03 events -/
+
+mutual
+/-- The C03 events `runT` performs, in order (reading the context — `emit`, `SpanCtxt::current`, a completion —
+    is an `observe`). -/
+def evsT (t c : Nat) : Tree → St IdVal → Nat → List (Ev IdVal)
+  | .event _ _, _, _ => [.observe t c]
+  | .cur _, _, _ => [.observe t c]
+  | .span id enabled rt rs user children, s, n =>
+    let child := newChild (current ((s.active t c).getD [])) rt rs
+    let kind := if enabled then Kind.push else Kind.disabled
+    let s2 := step (step s (.open t c n kind (spanProps id user child))) (.enter t c n)
+    [.open t c n kind (spanProps id user child), .enter t c n] ++ evsL t c children s2 (n + 1) ++
+      (if enabled then [.observe t c] else []) ++ [.exit t c n]
+  | .group t' children, s, n =>
+    let s2 := step (step s (.open t c n Kind.current [])) (.enter t' c n)
+    [.open t c n Kind.current [], .enter t' c n] ++ evsL t' c children s2 (n + 1) ++ [.exit t' c n]
+def evsL (t c : Nat) : List Tree → St IdVal → Nat → List (Ev IdVal)
+  | [], _, _ => []
+  | x :: xs, s, n => evsT t c x s n ++ evsL t c xs (runT t c x s n).2.1 (runT t c x s n).2.2
+end
+
+theorem exec_append {V : Type} (a b : List (Ev V)) (s : St V) : exec s (a ++ b) = exec (exec s a) b := by
+  induction a generalizing s with
+  | nil => rfl
+  | cons e es ih => exact ih (step s e)
+
+mutual
+theorem exec_evsT (tree : Tree) (t c : Nat) (s : St IdVal) (n : Nat) :
+    exec s (evsT t c tree s n) = (runT t c tree s n).2.1 := by
+  cases tree with
+  | event eid own => rfl
+  | cur cid => rfl
+  | span id enabled rt rs user children =>
+    simp only [evsT, List.cons_append, List.nil_append, exec, exec_append]
+    rw [exec_evsL children]
+    cases enabled <;> simp [exec, runT, step]
+  | group t' children =>
+    simp only [evsT, List.cons_append, List.nil_append, exec, exec_append]
+    rw [exec_evsL children]
+    simp [runT]
+theorem exec_evsL (ts : List Tree) (t c : Nat) (s : St IdVal) (n : Nat) :
+    exec s (evsL t c ts s n) = (runL t c ts s n).2.1 := by
+  cases ts with
+  | nil => rfl
+  | cons x xs =>
+    simp only [evsL, exec_append, exec_evsT x, exec_evsL xs, runL]
+end
+
+/-- handles from `n` on have never been opened -/
+def FreshFrom (g : G IdVal) (n : Nat) : Prop := ∀ f, n ≤ f → g.ctxtOf f = none
+
+
+/-- "this event list is a balanced well-nested block of the C03 discipline, from any consistent bookkeeping in
+    which the handles from `n` on are unused" -/
+def WN (evs : List (Ev IdVal)) (s : St IdVal) (n n' : Nat) : Prop :=
+  ∀ g : G IdVal, Inv s g → FreshFrom g n →
+    ∃ g', run s g evs = some (exec s evs, g') ∧ g'.stack = g.stack ∧ FreshFrom g' n'
+
+/-- one frame's block: open handle `n` on thread `t`, enter it on thread `t'`, a balanced body, (an observation,)
+    exit -/
+theorem wn_block (s : St IdVal) (t t' c n n3 : Nat) (kind : Kind) (ps : List (String × IdVal))
+    (body : List (Ev IdVal)) (obs : List (Ev IdVal)) (hobs : obs = [] ∨ obs = [.observe t' c])
+    (hb : WN body (step (step s (.open t c n kind ps)) (.enter t' c n)) (n + 1) n3) :
+    WN ([.open t c n kind ps, .enter t' c n] ++ body ++ obs ++ [.exit t' c n]) s n n3 := by
+  intro g hi hf
+  have hcn : g.ctxtOf n = none := hf n (Nat.le_refl n)
+  have hln : g.loc n = none := by
+    cases h : g.loc n with
+    | none => rfl
+    | some p => obtain ⟨c', hc'⟩ := hi.opened n p h; simp [hcn] at hc'
+  -- open
+  let g1 : G IdVal := { g with ctxtOf := setSlot g.ctxtOf n (some c),
+                               view := setSlot g.view n (openFrame kind (s.active t c) ps) }
+  have hw1 : wstep s g (.open t c n kind ps) = some g1 := by simp [wstep, hcn, g1]
+  have hi1 := inv_step hi _ _ hw1
+  -- enter
+  let g2 : G IdVal := { g1 with stack := setStack g1.stack t' c (n :: g1.stack t' c),
+                                loc := setSlot g1.loc n (some (t', c)) }
+  have hw2 : wstep (step s (.open t c n kind ps)) g1 (.enter t' c n) = some g2 := by
+    simp [wstep, g1, g2, setSlot, hln]
+  have hi2 := inv_step hi1 _ _ hw2
+  have hf2 : FreshFrom g2 (n + 1) := by
+    intro f hle
+    have hne : f ≠ n := by omega
+    simp only [g2, g1, setSlot, hne, if_false]
+    exact hf f (by omega)
+  obtain ⟨g3, hr3, hst3, hf3⟩ := hb g2 hi2 hf2
+  have hstk : g3.stack t' c = n :: g.stack t' c := by rw [hst3]; simp [g2, g1, setStack]
+  -- observe (if any) and exit
+  let g4 : G IdVal := { g3 with stack := setStack g3.stack t' c (g.stack t' c), loc := setSlot g3.loc n none }
+  have htail : ∀ s3, run s3 g3 (obs ++ [.exit t' c n]) = some (exec s3 (obs ++ [.exit t' c n]), g4) := by
+    intro s3
+    rcases hobs with rfl | rfl <;> simp [run, wstep, hstk, g4, exec, step]
+  refine ⟨g4, ?_, ?_, ?_⟩
+  · have e : [Ev.open t c n kind ps, .enter t' c n] ++ body ++ obs ++ [.exit t' c n] =
+        .open t c n kind ps :: .enter t' c n :: (body ++ (obs ++ [.exit t' c n])) := by simp
+    rw [e]
+    simp only [run, hw1, hw2, exec]
+    rw [run_append, hr3]
+    simp only [Option.bind]
+    rw [htail]
+    simp only [exec_append]
+  · simp only [g4, hst3, g2, g1]; exact setStack_restore _ _ _ _
+  · intro f hle; exact hf3 f hle
+
+mutual
+theorem evsT_wellNested (tree : Tree) (t c : Nat) (s : St IdVal) (n : Nat) :
+    WN (evsT t c tree s n) s n (runT t c tree s n).2.2 := by
+  cases tree with
+  | event eid own => intro g _ hf; exact ⟨g, by simp [evsT, run, wstep, exec, step], rfl, hf⟩
+  | cur cid => intro g _ hf; exact ⟨g, by simp [evsT, run, wstep, exec, step], rfl, hf⟩
+  | span id enabled rt rs user children =>
+    have hb := evsL_wellNested children t c
+      (step (step s (.open t c n (if enabled then Kind.push else Kind.disabled)
+        (spanProps id user (newChild (current ((s.active t c).getD [])) rt rs)))) (.enter t c n)) (n + 1)
+    have := wn_block s t t c n _ _ _ _ (if enabled then [.observe t c] else [])
+      (by cases enabled <;> simp) hb
+    simpa [evsT, runT] using this
+  | group t' children =>
+    have hb := evsL_wellNested children t' c (step (step s (.open t c n Kind.current [])) (.enter t' c n)) (n + 1)
+    have := wn_block s t t' c n _ _ _ _ [] (Or.inl rfl) hb
+    simpa [evsT, runT] using this
+theorem evsL_wellNested (ts : List Tree) (t c : Nat) (s : St IdVal) (n : Nat) :
+    WN (evsL t c ts s n) s n (runL t c ts s n).2.2 := by
+  cases ts with
+  | nil => intro g _ hf; exact ⟨g, by simp [evsL, run, exec], rfl, hf⟩
+  | cons x xs =>
+    intro g hi hf
+    obtain ⟨g1, hr1, hst1, hf1⟩ := evsT_wellNested x t c s n g hi hf
+    have hi1 := inv_run hi _ _ _ hr1
+    rw [exec_evsT] at hr1 hi1
+    obtain ⟨g2, hr2, hst2, hf2⟩ := evsL_wellNested xs t c _ _ g1 hi1 hf1
+    refine ⟨g2, ?_, hst2.trans hst1, ?_⟩
+    · simp only [evsL, run_append, hr1, Option.bind, hr2, exec_append, exec_evsT]
+    · simpa [runL] using hf2
+end
+
+
 end EmitModel.Span
